@@ -140,7 +140,8 @@ def run(ctx):
                 viol.append({"op": "listscripts", "what": "listing after the rename differs from the server's state: %s, want %s" % (lst[:80], want)})
     # directed sessions: a server that lists names as literals; what the client reports must be what the server holds, and
     # every reported name must be usable as it stands
-    for names in [["lists\\dev", "a"], ['q"uote', "back\\slash", "x"], ["c:\\dir\\f", "été", "sp ace"], ["tail\\", "{5}", "OK"]]:
+    for names in [["lists\\dev", "a"], ['q"uote', "back\\slash", "x"], ["c:\\dir\\f", "été", "sp ace"], ["tail\\", "{5}", "OK"],
+                  ["not active", "was Active", "x ACTIVE", "main"], ["ACTIVE", "active ", "z"]]:
         for version in (True, False):
             srv = _rs.RefServer(r, scripts={}, version=version, literal_names="safe")
             ses = _m.Session()
